@@ -28,17 +28,17 @@ PLANS = {
     "C05": dict(tags=ALL_TAGS, variants=["ser", "par"], cap={"quick": 50, "thorough": 400}, dupfamily=True,
                 what="every corpus program, serial and parallel: multiset view of every relation"),
     "C06": dict(tags={"perm"}, variants=["ser", "perm1", "perm2", "ren", "str", "u64", "permpar", "strpar"],
-                cap={"quick": 60, "thorough": 500}, shuffle=True,
+                cap={"quick": 60, "thorough": 500}, shuffle=True, random={"quick": 20, "thorough": 150},
                 what="permuted rules / declarations / heads / independent clauses, renamed identifiers, constants mapped to strings and u64"),
     "C07": dict(tags={"sugar"}, variants=["ser", "exp", "par", "exppar"], cap={"quick": 120, "thorough": 1000},
                 what="sugared program vs its hand-written core expansion"),
     "C08": dict(tags={"mac"}, variants=["ser", "exp", "par", "exppar"], cap={"quick": 120, "thorough": 1000},
                 what="program with in-program macros vs its hand-written hygienic expansion"),
-    "C10": dict(tags={"ds10"}, variants=["ser", "par", "pari"], cap={"quick": 500, "thorough": 4000},
+    "C10": dict(tags={"ds10"}, variants=["ser", "par", "pari"], cap={"quick": 500, "thorough": 4000}, random={"quick": 80, "thorough": 600},
                 what="eqrel provider: history-interpreter programs (facts arriving over several iterations, several keys, keys that pause and resume), every bound/free access pattern inside the recursive SCC and in later strata, joins, negation, aggregation; binary form also parallel"),
-    "C11": dict(tags={"ds11"}, variants=["ser"], cap={"quick": 500, "thorough": 4000},
+    "C11": dict(tags={"ds11"}, variants=["ser"], cap={"quick": 500, "thorough": 4000}, random={"quick": 80, "thorough": 600},
                 what="trrel provider: history-interpreter programs, every access pattern inside the recursive SCC and in later strata"),
-    "C12": dict(tags={"ds12"}, variants=["ser"], cap={"quick": 500, "thorough": 4000},
+    "C12": dict(tags={"ds12"}, variants=["ser"], cap={"quick": 500, "thorough": 4000}, random={"quick": 80, "thorough": 600},
                 what="trrel_uf provider: history-interpreter programs, every access pattern inside the recursive SCC and in later strata"),
     "C09": dict(tags={"pack"}, variants=["ser", "run", "mrt", "gen", "src0", "src1", "src2", "srcto", "redecl", "init", "to",
                                          "runpar", "srcpar"],
